@@ -299,7 +299,15 @@ func downloadBundleDescriptor(store storage.Store, repo, key string, settings Se
 	}
 
 	if settings.withMinimalBundle {
-		// in this configuration, don't fetch the bundle descriptor: we are only interested about the key
+		// in this configuration, don't fetch the bundle descriptor: we are only interested about the key.
+		// The descriptor must exist though: keys left over by an interrupted upload are not bundles.
+		has, erh := store.Has(context.Background(), model.GetArchivePathToBundle(repo, apc.BundleID))
+		if erh != nil {
+			return model.BundleDescriptor{}, erh
+		}
+		if !has {
+			return model.BundleDescriptor{}, storagestatus.ErrNotExists
+		}
 		return model.BundleDescriptor{
 			ID: apc.BundleID,
 		}, nil
